@@ -630,6 +630,13 @@ struct StaticInitProbe
   unsigned char enc[16], dec[16], dig[3][32];
   StaticInitProbe()
   {
+    // only when asked for (WV_SINIT=1, set by the check for the one `sinit` line): in every other run the library must meet its
+    // FIRST use inside the operation under test (a lazily initialised table raced for by two threads shows only then)
+    memset(enc, 0, sizeof enc);
+    memset(dec, 0, sizeof dec);
+    memset(dig, 0, sizeof dig);
+    if (!getenv("WV_SINIT"))
+      return;
     unsigned char k[16], b[16];
     for (int i = 0; i < 16; ++i)
     {
